@@ -21,6 +21,33 @@ THOROUGH_CONFIGS = ["nodefault"]
 AB = "graph::Graph::add_build"
 
 
+def producer_never_cleared(ck, ctx, rule):
+    """File.input, once it names a producer, keeps naming it: nowhere in the crate is it assigned None, taken, replaced or otherwise
+    handed out mutably (readiness and ordering treat a file without producer as a source)"""
+    F = ctx.F
+    bad = []
+    for b in F.view_bodies():
+        if b.expn:
+            continue
+        R_ = None
+        for bi, blk in enumerate(b.blocks):
+            if blk["cleanup"]:
+                continue
+            for s_ in blk["stmts"]:
+                if s_["k"] != "assign":
+                    continue
+                pl = s_["place"]
+                if pl["p"] and pl["p"][-1].get("k") == "field" and pl["p"][-1].get("name") == "input" and norm(pl["p"][-1].get("of", "")) == "graph::File":
+                    R_ = R_ or ctx.res(b)
+                    e = strip(R_.stmt_rvalue(bi, s_))
+                    if not (e[0] == "agg" and e[3] == "Some"):
+                        bad.append("%s assigns %s" % (b.nname, show(e, 2)))
+                rv = s_["rv"]
+                if rv["k"] == "ref" and rv.get("mut") and rv["place"]["p"] and rv["place"]["p"][-1].get("k") == "field" and rv["place"]["p"][-1].get("name") == "input" and norm(rv["place"]["p"][-1].get("of", "")) == "graph::File":
+                    bad.append("%s takes &mut File.input" % b.nname)
+    ck.ob(rule, "producer-never-cleared", not bad, "File.input is only ever assigned Some(..) and never borrowed mutably (take/replace): %s" % (bad or "no other use"), span="graph::File")
+
+
 def run(ck, ctx):
     C.adapter_census(ck, ctx, "all-outputs", ("graph::", "load::"))
     F = ctx.F
@@ -29,6 +56,7 @@ def run(ck, ctx):
     cfg = ctx.cfg(b)
     R = ctx.res(b)
     ck.functions.add(AB)
+    producer_never_cleared(ck, ctx, "input-writer")
     # the match on f.input
     ms = [z for z in Q.enum_switches(ctx, b) if z[3] == "std::option::Option" and field_chain(strip(z[2]))[1][-1:] == ["input"]]
     ck.floor("match on File.input in add_build", len(ms), 1)
